@@ -96,6 +96,8 @@ class BuiltinsBase:
         raise Unsupported("to_f %r" % (a,))
 
     def binop(self, op, a, b):
+        if a is None or b is None:
+            return None
         if op in ("Lt", "Le", "Gt", "Ge"):
             return self.int_cmp({"Lt": "<", "Le": "<=", "Gt": ">", "Ge": ">="}[op], a, b)
         if isinstance(a, F) or isinstance(b, F):
@@ -334,7 +336,9 @@ class BuiltinsBase:
         lo = r.f["start"] or I(0)
         hi = r.f["end"]
         if hi is None:
-            hi = I(v.n)
+            hi = I(len(v.v.encode())) if isinstance(v, S) and v.conc() else (I(v.n) if isinstance(v, Vc) else None)
+            if hi is None:
+                raise Unsupported("open slice of symbolic string")
         elif r.f["closed"]:
             hi = self.binop("Add", hi, I(1))
         if isinstance(v, S):
